@@ -7,7 +7,7 @@ Definition pulled_ok (n : N) (s : pstate) : Prop :=
   ps_pulled s + N.of_nat (length (ps_items s)) = n.
 
 Definition CP (n : N) : pcfg :=
-  {| cInv := pulled_ok n; cWeak := pulled_ok n; cRel := fun _ _ => True; cPanicOk := True |}.
+  {| cInv := pulled_ok n; cWeak := pulled_ok n; cRel := fun _ _ => True; cPanicOk := True; cFuelOk := True |}.
 
 Lemma CP_rel n : prel_ok (CP n).
 Proof. constructor; cbn; auto. Qed.
@@ -15,12 +15,12 @@ Proof. constructor; cbn; auto. Qed.
 Lemma pulled_frame n {A} (m : PM A) :
   (forall s a s', m s = POk (a, s') -> ps_pulled s' = ps_pulled s /\ ps_items s' = ps_items s) -> spec (CP n) m.
 Proof.
-  intros Hm. apply post_partial; [exact I|]. cbn. intros s Hs a s' E. destruct (Hm _ _ _ E) as [H1 H2].
+  intros Hm. apply post_partial; [exact I|exact I|]. cbn. intros s Hs a s' E. destruct (Hm _ _ _ E) as [H1 H2].
   unfold pulled_ok in *. rewrite H1, H2. auto.
 Qed.
 Lemma pulled_step n {A} (m : PM A) :
   (forall s a s', m s = POk (a, s') -> pulled_ok n s -> pulled_ok n s') -> spec (CP n) m.
-Proof. intros Hm. apply post_partial; [exact I|]. cbn. intros s Hs a s' E. split; eauto. Qed.
+Proof. intros Hm. apply post_partial; [exact I|exact I|]. cbn. intros s Hs a s' E. split; eauto. Qed.
 
 Lemma lexer_error_effect_pulled c d i s :
   ps_pulled (p_lexer_error_effect c d i s) = ps_pulled s.
@@ -101,7 +101,7 @@ Proof.
     intros [= <- <-]. auto.
 Qed.
 
-Definition CP_ok n : pcfg_ok (CP n) := atoms_cfg_ok (CP n) (CP_atoms n).
+Definition CP_ok n : pcfg_ok (CP n) := atoms_cfg_ok (CP n) (CP_atoms n) I.
 
 Lemma type_entry_CP n fuel : specR (CP n) (g_type_entry fuel).
 Proof.
